@@ -69,6 +69,18 @@ def jsonable(x):
     return x
 
 
+def compact(x, limit=48):
+    """A readable copy of a case for the evidence file: long lists are abbreviated."""
+    if isinstance(x, dict):
+        return {k: compact(v, limit) for k, v in x.items()}
+    if isinstance(x, (list, tuple)):
+        if len(x) > limit:
+            return [compact(v, limit) for v in x[:12]] + ["... %d more elements ..." % (len(x) - 16)] + [
+                compact(v, limit) for v in x[-4:]]
+        return [compact(v, limit) for v in x]
+    return x
+
+
 def digest(case):
     return hashlib.sha1(
         json.dumps(case, sort_keys=True, default=str).encode()
@@ -111,7 +123,7 @@ class Rec:
         self.distinct_by_construction += 1
         if len(self.samples) < self.MAX_SAMPLES:
             case = self.current if case is None else case
-            self.samples.append(json.loads(json.dumps(case, default=str)))
+            self.samples.append(compact(json.loads(json.dumps(case, default=str))))
 
     def nontrivial(self, case=None, key=None):
         case = self.current if case is None else case
@@ -120,7 +132,7 @@ class Rec:
             self.digests.add(d)
             n = len(self.digests)
             if n & (n - 1) == 0:  # 1st, 2nd, 4th, 8th ... distinct non-trivial case
-                self.samples.append(json.loads(json.dumps(case, default=str)))
+                self.samples.append(compact(json.loads(json.dumps(case, default=str))))
                 del self.samples[: -self.MAX_SAMPLES]
 
     def export(self):
